@@ -119,12 +119,24 @@ def clause_line_map(text):
     """line -> clause id: a marker line owns following lines until the next marker or a block keyword."""
     owner = {}
     cur = None
+    block = None     # (cid, open brace depth) while inside a multi-line `proof { .. }` hint: every line of the block is the hint's
     for n, ln in enumerate(text.split('\n'), 1):
+        if block is not None:
+            owner[n] = block[0]
+            depth = block[1] + ln.count('{') - ln.count('}')
+            block = (block[0], depth) if depth > 0 else None
+            cur = None
+            continue
         ms = re.findall(r'/\*@([^*]+)\*/', ln)
         s = ln.strip()
         if ms:
             cur = ms[0]
             owner[n] = cur
+            after = ln.split('*/', 1)[1] if '*/' in ln else ''
+            if re.match(r'^\s*proof\s*\{', after):
+                depth = after.count('{') - after.count('}')
+                if depth > 0:
+                    block = (cur, depth)
             if s.endswith(',') or s.endswith('}') or s.endswith(';'):
                 # may still continue (multi-line) only when brackets are open; keep simple
                 pass
